@@ -418,6 +418,11 @@ impl Search {
 
             self.board.unmake_move();
 
+            // The child may have been cut short: its score is meaningless and must not be used or cached
+            if !self.is_running() || self.limits_exceeded(start) {
+                return 0;
+            }
+
             // Move is too good, opponent will not allow the game to reach this position
             if score >= beta {
                 TRANSPOSITION_TABLE
